@@ -369,7 +369,9 @@ def build_pipeline(
     pipeline.manual_conflict_resolver = manual_conflict_resolver
 
     if config.dry_run:
-        pipeline.renamer = DryRunRenamer()
+        pipeline.renamer = DryRunRenamer(
+            same_directory_only=config.mode != OperationMode.path
+        )
         # FIXME: Use custom DryRunMover for path mode?
     else:
         if config.mode == OperationMode.name or config.mode == OperationMode.directory:
